@@ -127,6 +127,12 @@ func parenthesizedTypeDoc(ctx PrettyContext, t Type, parentPrecedence TypePreced
 	}
 
 	doc := t.Doc(ctx)
+
+	// A function type without a return type is always parenthesized
+	if functionType, ok := t.(*FunctionType); ok && functionType.hasEmptyReturnType() {
+		return doc
+	}
+
 	subPrecedence := t.Precedence()
 	if parentPrecedence <= subPrecedence &&
 		!typeNeedsParentheses(t, parentPrecedence) {
@@ -600,6 +606,13 @@ const openParenthesisDoc = prettier.Text("(")
 const closeParenthesisDoc = prettier.Text(")")
 const functionTypeParameterSeparatorDoc = prettier.Text(",")
 
+// hasEmptyReturnType returns true if the function type has no return type annotation.
+// In that case, the parser sets an empty type.
+func (t *FunctionType) hasEmptyReturnType() bool {
+	return t.ReturnTypeAnnotation != nil &&
+		IsEmptyType(t.ReturnTypeAnnotation.Type)
+}
+
 func (t *FunctionType) Doc(ctx PrettyContext) prettier.Doc {
 	parametersDoc := prettier.Concat{
 		prettier.SoftLine{},
@@ -648,6 +661,21 @@ func (t *FunctionType) Doc(ctx PrettyContext) prettier.Doc {
 				closeParenthesisDoc,
 			},
 		},
+	)
+
+	// NOTE: the return type annotation is optional.
+	// If it is missing, parenthesize the function type: a following colon
+	// (e.g. in a dictionary type, or in a condition) would be parsed
+	// as the start of the return type annotation
+	if t.hasEmptyReturnType() {
+		return ctx.Wrap(t, prettier.WrapParentheses(
+			result,
+			prettier.SoftLine{},
+		))
+	}
+
+	result = append(
+		result,
 		typeSeparatorSpaceDoc,
 		docOrEmpty(t.ReturnTypeAnnotation, ctx),
 	)
